@@ -530,6 +530,8 @@ class AsyncPettingZooVecEnv(PettingZooVecEnv):
             if i == num_errors - 1:
                 logger.error("Raising the last exception back to the main process.")
                 self._state = AsyncState.DEFAULT
+                if isinstance(value, BaseException):
+                    raise value
                 raise exctype(value)
 
     def _assert_is_running(self) -> None:
